@@ -286,9 +286,16 @@ def r15_4(ctx):
                 if cand is not None and any(isinstance(x, ast.Call) and isinstance(x.func, ast.Attribute) and x.func.attr == "replace" for x in walk_local(cand.node)):
                     esc = cand
                     esc_names = {c.func.id, cand.name}
-    if esc is None:
+    stdlib_esc = {loc for loc, (mod_, nm_) in f.module.imports.items() if (mod_, nm_) == ("html", "escape")}
+    stdlib_used = {c.func.id for c in walk_local(f.node) if isinstance(c, ast.Call) and isinstance(c.func, ast.Name) and c.func.id in stdlib_esc} | \
+                  ({"html.escape"} if any(isinstance(c, ast.Call) and norm(c.func) == "html.escape" for c in walk_local(f.node)) else set())
+    if esc is None and stdlib_used:
+        # the standard library's html.escape: replaces & first, then < and > (and quotes unless quote=False) - its documented contract
+        esc_names = stdlib_used
+        ctx.ok(f.where, "segment text is escaped with html.escape (& first, then < and >)", f.fq)
+    elif esc is None:
         raise AnchorVanished("export_html: the HTML escape helper (a function built from str.replace) was not found")
-    rets = [r for r in walk_local(esc.node) if isinstance(r, ast.Return)]
+    rets = [r for r in walk_local(esc.node) if isinstance(r, ast.Return)] if esc is not None else []
     chain = []
     cur = rets[0].value if rets else None
     while isinstance(cur, ast.Call) and isinstance(cur.func, ast.Attribute) and cur.func.attr == "replace":
@@ -296,9 +303,10 @@ def r15_4(ctx):
         cur = cur.func.value
     chain.reverse()
     want = {"&": "&amp;", "<": "&lt;", ">": "&gt;"}
-    ok = dict(chain) == want and chain and chain[0][0] == "&" and isinstance(cur, ast.Name) and cur.id == esc.params[0]
-    ctx.check(ok, esc.fq, norm(rets[0]) if rets else "?", esc.where, "escape replaces & first, then < and >",
-              f"escape() chain {chain} is not '&'->'&amp;' first, then '<' and '>': ampersands produced by later replacements are double-escaped, or a character is left raw")
+    if esc is not None:
+        ok = dict(chain) == want and chain and chain[0][0] == "&" and isinstance(cur, ast.Name) and cur.id == esc.params[0]
+        ctx.check(ok, esc.fq, norm(rets[0]) if rets else "?", esc.where, "escape replaces & first, then < and >",
+                  f"escape() chain {chain} is not '&'->'&amp;' first, then '<' and '>': ampersands produced by later replacements are double-escaped, or a character is left raw")
     # every loop that appends to fragments escapes the text first
     aliases = alias_map(f.node)
     from ..astutil import inline as _inl, single_defs as _sdf
@@ -308,7 +316,7 @@ def r15_4(ctx):
     for lp in loops:
         tvar = norm(lp.target.elts[0]) if isinstance(lp.target, ast.Tuple) else None
         first = lp.body[0] if lp.body else None
-        ok = isinstance(first, ast.Assign) and norm(first.targets[0]) == tvar and any(norm(first.value) == f"{en_}({tvar})" for en_ in esc_names)
+        ok = isinstance(first, ast.Assign) and norm(first.targets[0]) == tvar and any(norm(first.value) == f"{en_}({tvar})" or (esc is None and isinstance(first.value, ast.Call) and norm(first.value.func) == en_ and first.value.args and norm(first.value.args[0]) == tvar) for en_ in esc_names)
         apps = [c for b in lp.body for c in ast.walk(b) if isinstance(c, ast.Call) and norm(expand_alias(c.func, aliases)) == "fragments.append"]
         ok2 = bool(apps) and all(norm(c.args[0]) == tvar for c in apps)
         ctx.check(ok and ok2, f.fq, f"for {norm(lp.target)} in ...: {short(first) if first is not None else ''}", f"{f.module.relpath}:{lp.lineno}", "segment text is escaped before anything else and only that variable is emitted",
@@ -324,6 +332,16 @@ def r15_5(ctx):
     f = ctx.repo.fn("console:Console.export_text")
     g = cfgmod.build(f.node)
     streams = segment_streams(f, lambda it: norm(it) == "self._record_buffer")
+    if not streams and f.cls is not None:
+        # the walk over the record moved into a generator method of the class that export_text drains with the same argument names
+        for c_ in walk_local(f.node):
+            if isinstance(c_, ast.Call) and isinstance(c_.func, ast.Attribute) and isinstance(c_.func.value, ast.Name) and c_.func.value.id == "self":
+                h_ = f.cls.method(c_.func.attr)
+                if h_ is not None and h_.is_generator and all(isinstance(a_, ast.Name) and i_ + 1 < len(h_.params) and a_.id == h_.params[i_ + 1] for i_, a_ in enumerate(c_.args)) and not c_.keywords:
+                    hs = segment_streams(h_, lambda it: norm(it) == "self._record_buffer")
+                    if hs:
+                        # the helper's paths, anchored at the call in export_text (that is where the branch facts of export_text apply)
+                        streams = [(src_, paths_, c_) for src_, paths_, _a in hs]
     if not streams:
         raise AnchorVanished("export_text: no loop / comprehension over self._record_buffer found")
     allp = []
